@@ -222,33 +222,57 @@ func (b *builder) runBech(c *vrun.Ctx, rc rawCase) error {
 	return nil
 }
 
-// b58String builds the Base58Check string of an abstract row.
-func (b *builder) b58String(a b58Abs) string {
+// b58String builds the Base58Check string of an abstract row; ok is false when
+// no string with the accidental segwit-looking prefix was found (most version
+// bytes and lengths cannot start like one).
+func (b *builder) b58String(a b58Abs) (string, bool) {
 	switch a.Defect {
 	case "short":
-		return base58.Encode(randBytes(b.rng, b.rng.Intn(5)))
+		return base58.Encode(randBytes(b.rng, b.rng.Intn(5))), true
 	case "badchar":
 		raw := append([]byte{0}, randBytes(b.rng, 20)...)
 		raw = append(raw, sha256d(raw)[:4]...)
 		s := base58.Encode(raw)
 		pos := b.rng.Intn(len(s))
-		return s[:pos] + string("0OIl"[b.rng.Intn(4)]) + s[pos+1:]
+		return s[:pos] + string("0OIl"[b.rng.Intn(4)]) + s[pos+1:], true
 	}
-	v := byte(a.V)
-	if a.V < 0 {
-		for {
-			v = byte(b.rng.Intn(256))
-			if !b.t.b58ids[int(v)] {
-				break
+	tries := 1
+	if a.SegPrefix {
+		tries = 60000
+	}
+	for t := 0; t < tries || !a.SegPrefix; t++ {
+		v := byte(a.V)
+		if a.V < 0 {
+			for {
+				v = byte(b.rng.Intn(256))
+				if !b.t.b58ids[int(v)] {
+					break
+				}
+			}
+		}
+		raw := append([]byte{v}, randBytes(b.rng, a.Plen)...)
+		sum := sha256d(raw)[:4]
+		if a.Ck != "ok" {
+			sum[b.rng.Intn(4)] ^= byte(1 + b.rng.Intn(255))
+		}
+		s := base58.Encode(append(raw, sum...))
+		if b.t.w.segPrefix(s) == a.SegPrefix {
+			return s, true
+		}
+		if a.SegPrefix && t == 200 {
+			// can the first character start a registered prefix at all?
+			possible := false
+			for p := range b.t.w.regPrefix {
+				if strings.EqualFold(p[:1], s[:1]) {
+					possible = true
+				}
+			}
+			if !possible && a.V >= 0 {
+				return "", false
 			}
 		}
 	}
-	raw := append([]byte{v}, randBytes(b.rng, a.Plen)...)
-	sum := sha256d(raw)[:4]
-	if a.Ck != "ok" {
-		sum[b.rng.Intn(4)] ^= byte(1 + b.rng.Intn(255))
-	}
-	return base58.Encode(append(raw, sum...))
+	return "", false
 }
 
 func (b *builder) runB58(c *vrun.Ctx, rc rawCase) error {
@@ -259,18 +283,29 @@ func (b *builder) runB58(c *vrun.Ctx, rc rawCase) error {
 	if err := rc.decode(&cs, nil); err != nil {
 		return err
 	}
-	s := b.b58String(cs.S)
+	s, ok := b.b58String(cs.S)
+	if !ok {
+		c.AddExtra("b58_rows_without_a_string", 1)
+		c.AddTraces(1)
+		return nil
+	}
 	a, _, err := b.t.checkDecode(c, s, cs.Dn, "table-row", "row of the Base58Check decision table", rc.replay())
 	if err != nil {
 		return err
 	}
 	c.AddEval(1)
-	if a.form != "b58" || a.b58 != cs.S {
+	got := a.b58
+	if a.form == "bech" && a.alt != nil {
+		got = *a.alt
+	} else if a.form == "bech" {
+		got, _ = abstractB58(s, b.t.b58ids, true)
+	}
+	if a.form == "pkhex" || got != cs.S {
 		c.Violation("base58-encode:not-the-requested-string",
-			fmt.Sprintf("base58 encoder output %q abstracts to %+v, requested %+v", s, a.describe(), cs.S), rc.replay())
+			fmt.Sprintf("base58 encoder output %q abstracts to %+v, requested %+v", s, got, cs.S), rc.replay())
 	}
 	c.AddTraces(1)
-	c.Distinct(fmt.Sprintf("b58/%s/%s/id%d/len%d/%s", cs.S.Defect, cs.S.Ck, cs.S.V, cs.S.Plen, cs.Dn))
+	c.Distinct(fmt.Sprintf("b58/%s/%s/id%d/len%d/seg%t/%s", cs.S.Defect, cs.S.Ck, cs.S.V, cs.S.Plen, cs.S.SegPrefix, cs.Dn))
 	return nil
 }
 
